@@ -11,21 +11,50 @@ using vf::Case; using vf::Op;
 
 namespace {
 
-struct Spec { int lg_k, type; bool full; uint32_t start, n; uint32_t hp = 0; };  // hp: low 3 bits = number of high-value keys (registers >= 15), rest = first pool index
+struct Spec {
+  int lg_k, type; bool full; uint32_t start, n;
+  uint32_t hp = 0;     // low 3 bits = number of high-value keys (registers >= 15), rest = first pool index
+  uint32_t level = 0;  // 1..3: instead of the range, one key per slot whose register value is exactly this (lg_k <= 8): all registers equal, non-zero
+  uint32_t tw = 0;     // > 0: first two items are a pair of keys sharing the 26-bit coupon address (pair (tw-1)/2, order by the low bit)
+  uint64_t salt = 0;
+};
+
+// the items a spec stands for, in feeding order
+std::vector<vf::Item> spec_items(const Spec& sp) {
+  std::vector<vf::Item> v;
+  if (sp.tw > 0 && !vf::twin_pool().pairs.empty()) {
+    const auto& pr = vf::twin_pool().pairs[((sp.tw - 1) / 2) % vf::twin_pool().pairs.size()];
+    const bool small_first = ((sp.tw - 1) & 1) != 0;
+    v.push_back(vf::Item{vf::T_I64, static_cast<uint64_t>(small_first ? pr.first : pr.second)});
+    v.push_back(vf::Item{vf::T_I64, static_cast<uint64_t>(small_first ? pr.second : pr.first)});
+  }
+  if (sp.level > 0 && sp.lg_k <= 8) {
+    const uint32_t k = 1u << sp.lg_k;
+    std::vector<char> filled(k, 0); uint32_t left = k;
+    uint64_t key = vf::mix64(sp.salt + 0xC04C04) >> 8;
+    for (uint64_t tries = 0; left > 0 && tries < 4000000; ++tries, ++key) {
+      vf::Item it{vf::T_U64, key | (1ull << 56)};
+      uint32_t c;
+      if (!vf::ref_hll_item_coupon(it, c) || (c >> 26) != sp.level) continue;
+      const uint32_t slot = c & (k - 1);
+      if (filled[slot]) continue;
+      filled[slot] = 1; --left;
+      v.push_back(it);
+    }
+    return v;
+  }
+  for (uint32_t i = 0; i < sp.n; ++i) v.push_back(vf::Item{vf::T_I64, static_cast<uint64_t>(static_cast<int64_t>(sp.start) + i)});
+  // keys whose register value is >= 15: with cur_min > 0 an HLL_4 input then carries exception registers
+  const auto& pool = vf::high_pool().keys;
+  for (uint32_t j = 0; j < (sp.hp & 7u); ++j) v.push_back(vf::Item{vf::T_I64, static_cast<uint64_t>(pool[((sp.hp >> 3) + j) % pool.size()].first)});
+  return v;
+}
 
 hll_sketch build_sketch(const Spec& sp, std::set<uint32_t>* coupons) {
   hll_sketch sk(static_cast<uint8_t>(sp.lg_k), static_cast<target_hll_type>(sp.type), sp.full);
-  for (uint32_t i = 0; i < sp.n; ++i) {
-    int64_t key = static_cast<int64_t>(sp.start) + i;
-    sk.update(key);
-    if (coupons) coupons->insert(vf::ref_hll_coupon(vf::ref_hash_i64(key, 9001)));
-  }
-  // keys whose register value is >= 15: with cur_min > 0 an HLL_4 input then carries exception registers
-  const auto& pool = vf::high_pool().keys;
-  for (uint32_t j = 0; j < (sp.hp & 7u); ++j) {
-    int64_t key = pool[((sp.hp >> 3) + j) % pool.size()].first;
-    sk.update(key);
-    if (coupons) coupons->insert(vf::ref_hll_coupon(vf::ref_hash_i64(key, 9001)));
+  for (const vf::Item& it : spec_items(sp)) {
+    vf::feed(sk, it);
+    if (coupons) { uint32_t c; if (vf::ref_hll_item_coupon(it, c)) coupons->insert(c); }
   }
   return sk;
 }
@@ -114,6 +143,8 @@ void prop(const Case& cs) {
     int mode = im0.mode;
     if (mode == 2 && !im0.aux.empty()) vf::label(im0.cur_min > 0 ? "input:HLL_4-exceptions-cur-min>0" : "input:HLL_4-exceptions");
     for (auto x : c) st.m.add(x);
+    if (sp.level > 0 && sp.lg_k <= 8) vf::label("input:all-registers-equal");
+    if (sp.tw > 0) vf::label("input:twin-address-keys");
     if (mode == 2 && !sk.is_empty()) {
       if (st.hll_inputs == 0 && sp.lg_k > st.lg_max_k) st.downsample_before_second = true;
       st.any_hll = true; st.hll_inputs++; st.hll_lgks.insert(sp.lg_k);
@@ -136,6 +167,9 @@ void prop(const Case& cs) {
       uint64_t n = op.uarg(4);
       sp.n = static_cast<uint32_t>(n % 200001);
       sp.hp = op.a.size() > 5 ? static_cast<uint32_t>(op.uarg(5) % 2048) : 0;
+      sp.level = op.a.size() > 6 ? static_cast<uint32_t>(op.uarg(6) % 4) : 0;
+      sp.tw = op.a.size() > 7 ? static_cast<uint32_t>(op.uarg(7) % 49) : 0;
+      sp.salt = op.uarg(3) * 7919 + op.uarg(4);
       specs.push_back(sp);
       continue;
     }
@@ -146,7 +180,7 @@ void prop(const Case& cs) {
       offer_sketch(u, specs[i], rv);
       st.steps.push_back(Step{0, static_cast<int>(i), rv, vf::Item{0, 0}, 0, 0});
       if (!st.gadget_hll && !st.m.coupons.empty()) st.gadget_hll = parse(u.get_result(HLL_8)).mode == 2;  // self-promotion at the current lg_k
-      vf::label(specs[i].n == 0 ? "input:empty" : mode == 0 ? "input:LIST" : mode == 1 ? "input:SET" : "input:HLL");
+      vf::label((specs[i].n == 0 && specs[i].tw == 0 && !(specs[i].level > 0 && specs[i].lg_k <= 8)) ? "input:empty" : mode == 0 ? "input:LIST" : mode == 1 ? "input:SET" : "input:HLL");
       if (rv) vf::label("rvalue-update");
     } else if (op.name == "u_raw") {
       vf::Item it{static_cast<int>(op.uarg(0) % vf::T_NTYPES), op.uarg(1)};
@@ -155,6 +189,20 @@ void prop(const Case& cs) {
       st.steps.push_back(Step{1, 0, false, it, 0, 0});
       if (!st.gadget_hll && !st.m.coupons.empty()) st.gadget_hll = parse(u.get_result(HLL_8)).mode == 2;
       vf::label("raw-update");
+    } else if (op.name == "u_twin") {
+      // two raw items sharing the 26-bit coupon address with different values, in either order
+      const auto& tp = vf::twin_pool().pairs;
+      if (tp.empty()) continue;
+      const auto& pr = tp[op.uarg(0) % tp.size()];
+      const bool small_first = (op.uarg(1) & 1) != 0;
+      for (int64_t key : {small_first ? pr.first : pr.second, small_first ? pr.second : pr.first}) {
+        vf::Item it{vf::T_I64, static_cast<uint64_t>(key)};
+        vf::feed(u, it);
+        uint32_t c; if (vf::ref_hll_item_coupon(it, c)) st.m.add(c);
+        st.steps.push_back(Step{1, 0, false, it, 0, 0});
+      }
+      if (!st.gadget_hll && !st.m.coupons.empty()) st.gadget_hll = parse(u.get_result(HLL_8)).mode == 2;
+      vf::label("raw-twin-address-keys");
     } else if (op.name == "u_bulk") {
       uint64_t n = op.uarg(0) % 20000;
       uint64_t start = 1000000 + fresh; fresh += n;
@@ -205,16 +253,11 @@ void prop(const Case& cs) {
     VF_CHECK(close(u.get_composite_estimate(), u2.get_composite_estimate(), 1e-9), "order-independence", "composite estimate depends on order: " << u.get_composite_estimate() << " vs " << u2.get_composite_estimate());
     // a single sketch of the result's lg_k that saw every item
     uint64_t total = 0;
-    for (const Step& s : st.steps) total += s.kind == 0 ? specs[s.idx].n : s.kind == 2 ? s.bulk_n : 1;
+    for (const Step& s : st.steps) total += s.kind == 0 ? specs[s.idx].n + 300 : s.kind == 2 ? s.bulk_n : 1;
     if (total <= 700000) {
       hll_sketch direct(static_cast<uint8_t>(st.lg_k), HLL_8, ia.mode == 2);
       for (const Step& s : st.steps) {
-        if (s.kind == 0) {
-          const Spec& sp = specs[s.idx];
-          for (uint32_t i = 0; i < sp.n; ++i) direct.update(static_cast<int64_t>(sp.start) + i);
-          const auto& pool = vf::high_pool().keys;
-          for (uint32_t j = 0; j < (sp.hp & 7u); ++j) direct.update(pool[((sp.hp >> 3) + j) % pool.size()].first);
-        }
+        if (s.kind == 0) { for (const vf::Item& it : spec_items(specs[s.idx])) vf::feed(direct, it); }
         else if (s.kind == 1) vf::feed(direct, s.item);
         else for (uint64_t i = 0; i < s.bulk_n; ++i) direct.update(static_cast<int64_t>(s.bulk_start + i));
       }
@@ -239,10 +282,13 @@ rc::Gen<Case> gen_main() {
   auto nGen = rc::gen::weightedOneOf<int64_t>({{1, range(0, 0)}, {1, range(1, 7)}, {2, range(8, 200)}, {6, range(200, 5000)}, {1, range(5000, 200000)}});
   auto skBase = op4("sk", rc::gen::weightedOneOf<int64_t>({{5, range(0, 6)}, {2, range(7, 12)}, {1, range(13, 17)}}), range(0, 2), range(0, 3), range(0, 5999));
   auto hpGen = rc::gen::weightedOneOf<int64_t>({{1, range(0, 0)}, {1, range(0, 2047)}});
-  auto sk = rc::gen::map(rc::gen::tuple(skBase, nGen, hpGen), [](std::tuple<Op, int64_t, int64_t> t) { Op o = std::get<0>(t); o.a.push_back(std::get<1>(t)); o.a.push_back(std::get<2>(t)); return o; });
+  auto lvGen = rc::gen::weightedOneOf<int64_t>({{7, range(0, 0)}, {1, range(1, 3)}});
+  auto twGen = rc::gen::weightedOneOf<int64_t>({{5, range(0, 0)}, {1, range(1, 48)}});
+  auto sk = rc::gen::map(rc::gen::tuple(skBase, nGen, hpGen, lvGen, twGen), [](std::tuple<Op, int64_t, int64_t, int64_t, int64_t> t) { Op o = std::get<0>(t); o.a.push_back(std::get<1>(t)); o.a.push_back(std::get<2>(t)); o.a.push_back(std::get<3>(t)); o.a.push_back(std::get<4>(t)); return o; });
   auto hist = choose({
       {8, op2("u_sk", range(0, 5), range(0, 1))},
       {2, op2("u_raw", range(0, T_NTYPES - 1), raw_gen())},
+      {1, op2("u_twin", range(0, 23), range(0, 1))},
       {1, op1("u_bulk", range(1, 3000))},
       {2, op1("res", range(0, 2))},
       {2, op1("est", range(0, 1))},
